@@ -93,7 +93,13 @@ func rootCause(op *opDef, c Case, i int, fam string) string {
 	}
 	switch op.Name {
 	case "DivElemVec":
-		if a.Same && fam == famIdentityWrong {
+		strided := c.Recv.stride() != 1
+		for _, b := range c.Args {
+			if !b.Same && b.W.stride() != 1 {
+				strided = true
+			}
+		}
+		if a.Same && fam == famIdentityWrong && strided {
 			return "divelemvec-missing-return"
 		}
 	case "Mul":
@@ -112,7 +118,15 @@ func rootCause(op *opDef, c Case, i int, fam string) string {
 			return "solve-matrix-operand-unchecked"
 		}
 		if op.Name == "Solve" && i == 1 && overlap {
-			return "solve-rhs-unchecked"
+			// LU.SolveTo and TriDense.SolveTo do check a RawMatrixer (Dense)
+			// right-hand side; QR/LQ (non-square a) check nothing.
+			ar, ac := c.Args[0].W.dims()
+			if c.Args[0].Same {
+				ar, ac = c.Recv.dims()
+			}
+			if kind != "D" || ar != ac {
+				return "solve-rhs-unchecked"
+			}
 		}
 	case "Stack", "Augment":
 		if !a.Same && (overlap || fam == famMutatedBefore) {
@@ -122,14 +136,21 @@ func rootCause(op *opDef, c Case, i int, fam string) string {
 		if a.Same && inFam(fam, famIdentityReject, famIdentityWrong) {
 			return "dense-kronecker-identity"
 		}
-		if !a.Same && (overlap || fam == famMutatedBefore) {
+		if !a.Same && i == 0 && (overlap || fam == famMutatedBefore) {
+			return "dense-kronecker-overlap-check-incomplete"
+		}
+		if !a.Same && i == 1 && (fam == famMutatedBefore || (overlap && a.T && kind != "D")) {
 			return "dense-kronecker-overlap-check-incomplete"
 		}
 	case "Pow", "Exp":
-		if !a.Same && overlap {
+		n := -1
+		if op.Name == "Pow" {
+			n = powers[c.Var]
+		}
+		if !a.Same && overlap && n != 2 { // Pow(a, 2) is Mul, which checks
 			return "dense-pow-exp-no-overlap-check"
 		}
-		if a.Same && a.T && fam == famIdentityReject {
+		if a.Same && a.T && fam == famIdentityReject && (n == -1 || n == 1) {
 			return "identity-transposed-rejected"
 		}
 	case "RankOne":
